@@ -59,7 +59,11 @@ type sbind struct {
 type sframe struct {
 	vars    map[string]*sbind
 	hides   map[string]int // names being defined in this frame: invisible inside deeper functions
-	fnDepth int
+	// names referred to (through a binding of an outer frame) while this frame was open: a
+	// closure created in this frame may hold such a reference, and a later def of the name in
+	// this frame would be what it sees; such a def keeps the type and the rank of the outer binding
+	outerRefs map[string]bool
+	fnDepth   int
 }
 
 type scg struct {
@@ -105,7 +109,7 @@ func (e *scg) withLimit(lim int, gen func()) int {
 
 func (e *scg) rnd(n int) int { return e.g.Rng.Intn(n) }
 func (e *scg) push() {
-	e.frames = append(e.frames, &sframe{vars: map[string]*sbind{}, hides: map[string]int{}, fnDepth: e.fnDepth})
+	e.frames = append(e.frames, &sframe{vars: map[string]*sbind{}, hides: map[string]int{}, outerRefs: map[string]bool{}, fnDepth: e.fnDepth})
 }
 func (e *scg) pop() { e.frames = e.frames[:len(e.frames)-1] }
 func (e *scg) pushFn(self string) {
@@ -167,6 +171,14 @@ func (e *scg) visible(n string) *sbind {
 	return nil
 }
 
+// noteRef: a reference to n, resolved to binding b, was written while the frames above b's
+// were open.
+func (e *scg) noteRef(n string, b *sbind) {
+	for i := b.frame + 1; i < len(e.frames); i++ {
+		e.frames[i].outerRefs[n] = true
+	}
+}
+
 func (e *scg) hide(n string) func() {
 	fr := e.frames[len(e.frames)-1]
 	fr.hides[n]++
@@ -191,6 +203,17 @@ func (e *scg) candidates(t sty, forSet bool) []string {
 	return c
 }
 
+// capturedInts: visible int locals of an enclosing function (assignable ones)
+func (e *scg) capturedInts() []string {
+	var c []string
+	for _, n := range e.candidates(sI, true) {
+		if b := e.visible(n); b != nil && b.frame > 0 && e.fnDepth > b.fnDepth {
+			c = append(c, n)
+		}
+	}
+	return c
+}
+
 func (e *scg) pick(t sty) (string, bool) {
 	c := e.candidates(t, false)
 	if len(c) == 0 {
@@ -205,6 +228,9 @@ func (e *scg) ref(n string) *nd {
 	b := e.visible(n)
 	if b != nil && holdsClosures(b.ty) && b.rank > e.maxRef {
 		e.maxRef = b.rank
+	}
+	if b != nil {
+		e.noteRef(n, b)
 	}
 	if b != nil {
 		cross := e.fnDepth - b.fnDepth
@@ -350,6 +376,16 @@ func (e *scg) expr(t sty, d int) *nd {
 		e.popFn()
 		return L(L(k...), arg)
 	}
+	if t == sI {
+		if c := e.capturedInts(); len(c) > 0 && e.rnd(3) == 0 {
+			// a closure updating a variable of the activation that created it
+			n := c[e.rnd(len(c))]
+			e.g.Count("counter step on a captured local")
+			e.feat["set captured local"] = true
+			e.ref(n)
+			return L(A("set"), A(n), L(A("+"), A(n), I(int64(1+e.rnd(3)))))
+		}
+	}
 	switch t {
 	case sI:
 		switch e.rnd(12) {
@@ -422,6 +458,7 @@ func (e *scg) setForm(n string, t sty, d int) *nd {
 	b := e.visible(n)
 	e.g.Count("form set")
 	if b != nil {
+		e.noteRef(n, b)
 		cross := e.fnDepth - b.fnDepth
 		if cross > 0 && b.frame > 0 {
 			e.feat["set captured local"] = true
@@ -511,24 +548,19 @@ func (e *scg) letForm(t sty, d int) *nd {
 		names = append(names, nm)
 		types = append(types, bt)
 	}
-	if !seq {
-		// parallel let: the initialisers run inside the new scope before any of the names
-		// is bound there; a closure made by an initialiser sees the new bindings later
-		for _, nm := range names {
-			unhide = append(unhide, e.hide(nm))
-		}
+	// the initialisers run inside the new scope; a closure made by one of them captures that
+	// scope and later sees every name the form binds there afterwards (all of them for let,
+	// the own and the later ones for letseq): inside function bodies those names are hidden
+	for _, nm := range names {
+		unhide = append(unhide, e.hide(nm))
 	}
 	for i, nm := range names {
-		var u func()
-		if seq {
-			u = e.hide(nm)
-		}
 		var init *nd
 		rk := e.withLimit(0, func() { init = e.expr(types[i], d-1) })
 		ranks = append(ranks, rk+1)
 		binds = append(binds, A(nm), init)
 		if seq {
-			u()
+			unhide[i]()
 			e.bind(nm, types[i]).rank = rk + 1
 		}
 	}
@@ -572,12 +604,25 @@ func (e *scg) defStmt(d int) *nd {
 		if lim == 0 {
 			lim = 1
 		}
+	} else if ob := e.visible(n); !ok && ob != nil && fr.outerRefs[n] {
+		// see sframe.outerRefs
+		if ob.noset {
+			return L(A("trace"), e.expr(sI, d-1))
+		}
+		e.g.Count("stmt def shadowing a name already referred to in this scope")
+		t = ob.ty
+		if holdsClosures(t) {
+			lim, rank = ob.rank, ob.rank
+			if lim == 0 {
+				lim = 1
+			}
+		}
 	}
 	u := e.hide(n)
 	var rhs *nd
 	rk := e.withLimit(lim, func() { rhs = e.expr(t, d-1) })
 	u()
-	if lim == 0 {
+	if lim == 0 && holdsClosures(t) {
 		rank = rk + 1
 	}
 	e.bind(n, t).rank = rank
@@ -596,6 +641,8 @@ func (e *scg) defnStmt(d int) *nd {
 		if t == sI || t == sA {
 			return e.defStmt(d)
 		}
+	} else if ob := e.visible(n); ob != nil && fr.outerRefs[n] {
+		return e.defStmt(d)
 	}
 	e.g.Count("stmt defn")
 	if e.fnDepth > 0 {
@@ -823,6 +870,19 @@ var scopeShapes = []struct{ name, text string }{
 	{"self name shadowed by an inner defn", "(defn $X [$Y] (defn $X [] $Y) ($X)) [($X 5) ($X 6)]"},
 	{"self name shadowed in a nested scope only", "(defn $X [$Y] (cond (== $Y 0) 0 (begin (newScope (def $X 5) (trace $X)) ($X (- $Y 1))))) ($X 2)"},
 	{"self name is an array parameter", "(defn $X [$Y $X] (cond (== $Y 0) $X ($X (- $Y 1) (append $X (fn [] $Y))))) ($X 3 [])"},
+	{"!unbound free variable stays unbound although the caller binds it", "(defn $X [] $Y) (defn $Z [$Y] ($X))\x00($Z 1)\x00(let [$Y 5] ($X))\x00((fn [$Y] ($X)) 6)\x00(def $Y 7) [($Z 1) (let [$Y 5] ($X))]"},
+	{"unbound free variable: caller binds it by let / loop / def", "(defn p [] $Y) (defn q [] (let [$Y 1] (p)))\x00(q)\x00(defn r [] (for [(def $Y 0) (< $Y 1) (set $Y (+ $Y 1))] (trace (p))))\x00(r)\x00(defn s [] (def $Y 3) (p))\x00(s)"},
+	{"unbound free variable inside a returned closure", "(defn p [$X] (fn [] (+ $X $Y))) (defn q [$Y] ((p 1)))\x00(q 5)"},
+	{"set of an unbound name binds locally, not in the caller", "(defn p [] (set $Y 5) $Y) (defn q [$Y] [(p) $Y]) (q 1)"},
+	{"set of an unbound name does not reach a caller's let", "(defn p [] (set $Y 5) $Y) [(let [$Y 1] [(p) $Y]) (p)]"},
+	{"def in the callee is invisible to the caller", "(defn p [] (def $Y 5) $Y) (defn q [] (p) $Y)\x00(q)"},
+	{"one-form newScope still scopes its def", "(def $X 1) (newScope (def $X 2)) (newScope (set $X (+ $X 10))) $X"},
+	{"one-form let body / empty binding list", "(def $X 1) (let [] (def $X 2)) (let [$Y 5] (def $X 3)) (letseq [] (def $X 4)) $X"},
+	{"one-form function body defines a local", "(def $X 1) ((fn [] (def $X 2))) (defn $Y [] (def $X 3)) ($Y) $X"},
+	{"loop with a one-form body defining a local", "(def $X 1) (for [(def $Y 0) (< $Y 2) (set $Y (+ $Y 1))] (def $X (+ $Y 10))) $X"},
+	{"nested one-form scopes capture separately", "(def q (newScope (let [$X 1] (newScope (fn [] (set $X (+ $X 1)) $X))))) [(q) (q)]"},
+	{"closure made by a let initialiser sees the let's bindings", "(def $Y 9) [(let [$X (fn [] $Y) $Y 2] ($X)) (letseq [$X (fn [] $Y) $Y 3] ($X)) (let [$X (fn [] (set $Y (+ $Y 1)) $Y) $Y 5] [($X) $Y]) $Y]"},
+	{"let initialisers do not see the let's own names", "(def $X 1) (def $Y 2) [(let [$X $Y $Y $X] [$X $Y]) (letseq [$X $Y $Y $X] [$X $Y]) (let [$X (+ $X 10)] (let [$X (+ $X 100)] $X))]"},
 	{"maker called in a tail-recursive loop", "(defn $Z [$X] (fn [] $X)) (defn $Y [$X q] (cond (== $X 0) q ($Y (- $X 1) (append q ($Z $X))))) (map (fn [r] (r)) ($Y 3 []))"},
 }
 
@@ -904,7 +964,7 @@ func scopeGen(g *Gen) {
 	}
 	nTyped := 900
 	if g.Thorough() {
-		nTyped = 30000
+		nTyped = 60000
 	}
 	for i := 0; i < nTyped; i++ {
 		e := &scg{g: g, pool: pools[g.Rng.Intn(2)], feat: map[string]bool{}, self: []string{""}}
@@ -1053,6 +1113,16 @@ func scopeSmall(g *Gen) {
 		if len(ls) >= 2 && ls[0].name == ls[len(ls)-1].name {
 			g.Count("small-scope innermost shadows outermost")
 		}
+		mut := false
+		for _, l := range ls {
+			if l.mut != 0 {
+				mut = true
+			}
+		}
+		if mut {
+			g.Count("small-scope a captured variable is mutated after its capture")
+		}
+		g.Count("small-scope closures called after their creators returned")
 	}
 	for _, ls := range smAll(1) {
 		emit(ls)
@@ -1070,7 +1140,7 @@ func scopeSmall(g *Gen) {
 	// nesting 3: 96^3 = 884 736 programs. Thorough: the complete set over the reduced
 	// mutation alphabet {nothing, set} at the two outer levels is still 64*64*96 = 393 216;
 	// it is enumerated in full only with VERIF_SCOPE_FULL=1, otherwise every program whose
-	// index is ≡ seed (mod 12) — a different twelfth on each seed.
+	// index is ≡ seed (mod 4) — a different quarter on each seed.
 	one := smAll(1)
 	if g.Thorough() {
 		idx := 0
@@ -1084,7 +1154,7 @@ func scopeSmall(g *Gen) {
 				}
 				for _, c := range one {
 					idx++
-					if !scopeFull && int64(idx)%12 != g.Seed%12 {
+					if !scopeFull && int64(idx)%4 != g.Seed%4 {
 						continue
 					}
 					emit([]smLevel{a[0], b[0], c[0]})
